@@ -25,7 +25,7 @@ ls -d seeded/*/ | sed 's|/$||' | while read d; do
   [ -f $d/patch.diff ] || continue
   name=$(basename $d)
   if [ -n "${PROP[$name]:-}" ]; then prop=${PROP[$name]}; else prop=${name%%-*}; fi
-  case "$prop" in W2|W3) t=${name#W?-}; prop=${t%%-*};; esac
+  case "$prop" in W[0-9]) t=${name#W?-}; prop=${t%%-*};; esac
   if [ -n "$ONLY" ] && ! echo "$ONLY" | grep -qw "$prop"; then continue; fi
   res=$(MUT_LINES=60 tools/mutant.sh $d/patch.diff $prop 2>&1)
   rules=$(echo "$res" | grep -o "rule=[A-Za-z0-9.]*" | sort -u | sed 's/rule=//' | tr '\n' ' ')
